@@ -14,6 +14,7 @@ import QlibcModel.Conf.AconfNested
 import QlibcModel.Conf.AconfMalformed
 import QlibcModel.Conf.AconfNoNl
 import QlibcModel.Conf.AconfLineno
+import QlibcModel.Conf.AconfObj
 import QlibcModel.Shapes.Conf
 namespace Qlibc.Props.C20
 open Qlibc Qlibc.Conf Qlibc.Conf.Aconf
@@ -490,5 +491,38 @@ example : FLineOk (.dir [([], ⟨[76, 105, 115, 116, 101, 110], .bare, []⟩), (
     simp only [List.mem_cons, List.not_mem_nil, or_false] at hx
     rcases hx with rfl | rfl <;> exact ⟨by decide, fun _ => by decide⟩
   · intro a ha; simp at ha; subst ha; exact ⟨by decide, by decide⟩
+
+/-! ### the parser object across calls (`qaconf_t` keeps filepath, lineno, errstr) -/
+
+/-- A `qaconf_t` that has been used before - any sequence of earlier `parse` calls (any paths, any
+    contents, accepted or rejected) and `reseterror` calls - delivers for the next document exactly
+    what a fresh object delivers: the same callbacks in the same order and the same result, i.e.
+    the count, or the line and message of the first offence counted FROM THE START OF THIS FILE.
+    (`ac_accept_iff`, `ac_callbacks`, ... are stated for `parse`; this lifts them to every call on
+    every object.) -/
+theorem ac_reused_object_same_reading (cfg : Cfg) (us : List Use) (path file : Bytes) :
+    ((Obj.uses cfg Obj.fresh us).parse cfg path file).map (fun x => (x.2.1, x.2.2)) = parse cfg file :=
+  Obj.parse_after_history cfg us path file
+
+/-- after a rejected document `errmsg` names the path of THIS call, the line of ITS first offence
+    and its message, whatever the object held before -/
+theorem ac_errmsg_names_this_call (cfg : Cfg) (us : List Use) (path file : Bytes) {o' : Obj}
+    {evs : List Event} {l : Nat} {m : Bytes}
+    (h : (Obj.uses cfg Obj.fresh us).parse cfg path file = Except.ok (o', evs, Res.err l m)) :
+    o'.errstr = some (path, l, m) ∧ parse cfg file = Except.ok (evs, Res.err l m) :=
+  Obj.errmsg_of_failure cfg _ path file h
+
+/-- after `reseterror` and an accepted document there is no error text -/
+theorem ac_no_stale_errmsg (cfg : Cfg) (us : List Use) (path file : Bytes) {o' : Obj}
+    {evs : List Event} {n : Nat}
+    (h : (Obj.uses cfg Obj.fresh us).reseterror.parse cfg path file = Except.ok (o', evs, Res.count n)) :
+    o'.errstr = none :=
+  Obj.errmsg_after_reset_success cfg _ path file h
+
+-- non-vacuity: an object that has read a six-line file of comments reads `x` like a fresh one
+example (cfg : Cfg) (file : Bytes) :
+    ((Obj.uses cfg Obj.fresh [.parse (str "p") (str "# a\n\n# b\n\n\n# c\n"), .reset]).parse cfg (str "p") file).map
+      (fun x => (x.2.1, x.2.2)) = parse cfg file :=
+  ac_reused_object_same_reading cfg _ _ file
 
 end Qlibc.Props.C20
